@@ -1,11 +1,12 @@
 #!/usr/bin/env python3
 """apply a (claimed) behaviour-preserving patch to /repo, run the suite and all 20 checks, undo. usage: harmless_check.py <patch>"""
-import json, subprocess, sys
+import json, os, subprocess, sys
+MUT = os.environ.get('VERIF_REPO', '/repo')
 patch = sys.argv[1]
 def sh(c, cwd='/verif'):
     return subprocess.run(c, shell=True, stdout=subprocess.PIPE, stderr=subprocess.STDOUT, text=True, cwd=cwd)
 ids = [json.loads(l)['id'] for l in open('/verif/properties.jsonl')]
-r = sh('git -C /repo apply %s' % patch)
+r = sh('git -C %s apply %s' % (MUT, patch))
 if r.returncode != 0:
     print('does not apply:', r.stdout); sys.exit(2)
 try:
@@ -19,4 +20,4 @@ try:
             print(p, v[:1], [f[:260] for f in first], flush=True)
     print('alarms:', [p for p, rc, _, _ in out if rc != 0])
 finally:
-    sh('git -C /repo checkout -- .')
+    sh('git -C %s checkout -- .' % MUT)
